@@ -238,7 +238,7 @@ func checkC06Required(c *Ctx, n int) {
 			}
 		}
 		var warm []string
-		cs.Ops, warm = withWarmup(c, real, argv)
+		cs.Ops, warm = withWarmupBelow(c, real, chain, argv)
 		cs.Description = describeOps(cs)
 		c.RunCases([]*Case{cs}, func(cr *CaseResult) {
 			c.classifyCase(cr)
@@ -383,6 +383,82 @@ func checkC06ArgsRequired(c *Ctx, n int) {
 			}
 			c.Check("the-command's-own-mark-decides-which-positional-arguments-are-required", ok, "C06:args-required", in,
 				fmt.Sprintf("%s %s type %d %q", obs.panic, obs.errKind, obs.errType, obs.errMsg), want)
+		})
+	}
+}
+
+// checkC06Reuse: one parser, two calls.  A chain of nested commands, each with a required option of its
+// own and optional subcommands; an earlier call walks further down than the judged one (and fails, or
+// succeeds, for its own reasons).  The judged call demands the required options of the commands IT
+// selects, and of no command the earlier call had selected below them.
+func checkC06Reuse(c *Ctx, n int) {
+	r := c.Rng
+	for i := 0; i < n; i++ {
+		depth := 2 + r.Intn(2)
+		var sd *StructDesc
+		for l := depth; l >= 1; l-- {
+			st := &StructDesc{Fields: []FieldDesc{
+				{Name: fmt.Sprintf("Req%d", l), Exported: true, Kind: "v", Ty: "str", Tag: fmt.Sprintf(`long:"req%d" required:"yes"`, l)},
+				{Name: fmt.Sprintf("Flag%d", l), Exported: true, Kind: "v", Ty: "bool", Tag: fmt.Sprintf(`long:"flag%d"`, l)}}}
+			if sd != nil {
+				st.Fields = append(st.Fields, FieldDesc{Name: fmt.Sprintf("Sub%d", l), Exported: true, Kind: "s", Sub: sd, Tag: fmt.Sprintf(`command:"c%d" subcommands-optional:"yes"`, l+1)})
+			}
+			sd = st
+		}
+		root := &StructDesc{Fields: []FieldDesc{{Name: "V", Exported: true, Kind: "v", Ty: "bool", Tag: `short:"v"`},
+			{Name: "Sub0", Exported: true, Kind: "s", Sub: sd, Tag: `command:"c1" subcommands-optional:"yes"`}}}
+		cs := &Case{Name: "app", NsDelim: ".", EnvNsDelim: "_"}
+		cs.Build = []BuildOp{{Kind: "addgroup", Target: 1, Short: "Application Options", Struct: root},
+			{Kind: "setcmd", Target: 1, Attr: "subopt", Vals: []string{"1"}}}
+		// (what an earlier call stored stays stored: an option it supplied is supplied)
+		supplied := map[int]bool{}
+		line := func(reach int, supply func(l int) bool) ([]string, []string) {
+			var argv, missing []string
+			for l := 1; l <= reach; l++ {
+				argv = append(argv, fmt.Sprintf("c%d", l))
+				if supply(l) {
+					argv = append(argv, fmt.Sprintf("--req%d=x", l))
+					supplied[l] = true
+				} else if !supplied[l] {
+					missing = append(missing, fmt.Sprintf("`--req%d'", l))
+				}
+				if r.Intn(3) == 0 {
+					argv = append(argv, fmt.Sprintf("--flag%d", l))
+				}
+			}
+			return argv, missing
+		}
+		earlierReach := 1 + r.Intn(depth)
+		judgedReach := r.Intn(earlierReach + 1)
+		earlier, _ := line(earlierReach, func(l int) bool { return r.Intn(2) == 0 })
+		judged, missing := line(judgedReach, func(l int) bool { return r.Intn(4) != 0 })
+		cs.Ops = []Op{{Kind: "parse", Args: earlier}, {Kind: "parse", Args: judged}}
+		cs.Description = describeOps(cs)
+		want := "success"
+		switch {
+		case len(missing) == 1:
+			want = "the required flag " + missing[0] + " was not specified"
+		case len(missing) > 1:
+			want = "the required flags " + joinAnd(missing) + " were not specified"
+		}
+		c.RunCases([]*Case{cs}, func(cr *CaseResult) {
+			c.classifyCase(cr)
+			var obs parseObs
+			for _, o := range parseBlocks(cr) {
+				obs = o
+			}
+			c.Class(fmt.Sprintf("c06/reuse: depth=%d earlier-reaches=%d judged-reaches=%d missing=%d", depth, earlierReach, judgedReach, len(missing)))
+			in := map[string]interface{}{"case": cs.Description, "earlier_call": earlier, "judged_call": judged}
+			var ok bool
+			if len(missing) == 0 {
+				ok = obs.panic == "" && obs.errKind == "ok"
+			} else {
+				ok = obs.panic == "" && obs.errKind == "flags" && obs.errType == int(flags.ErrRequired) && obs.errMsg == want
+			}
+			if !ok {
+				in["case_file"] = c.saveCase(cr)
+			}
+			c.Check("a-call-demands-what-its-own-commands-require", ok, "C06:reuse", in, fmt.Sprintf("%s %s type %d %q", obs.panic, obs.errKind, obs.errType, obs.errMsg), want)
 		})
 	}
 }
